@@ -67,7 +67,7 @@ def make_v4(rng, T=8, F=6, n_ants=2, shuffle_bls=True, chunks=None, store_dir=No
             int_time=2.0, center_freq=1284e6, bandwidth=None, need_weights_power_scale=False,
             cbid='1234567890', stream='sdp_l0', l1_flags=None, upgrade_flags=True, obs_params=None,
             pols='hv', sub_product='c856M4k', sub_pool_resources=None, van_vleck='off', seed=None,
-            rdb_path=None):
+            rdb_path=None, archived_streams=None):
     """Build telstate + store + open the data set.  See module docstring."""
     syn = V4Synth()
     corrprods = default_corrprods(n_ants, rng, shuffle_bls, pols)
@@ -118,7 +118,7 @@ def make_v4(rng, T=8, F=6, n_ants=2, shuffle_bls=True, chunks=None, store_dir=No
     s_view['bls_ordering'] = np.array(corrprods)
     s_view['need_weights_power_scale'] = need_weights_power_scale
     s_view['stream_type'] = 'sdp.vis'
-    telstate['sdp_archived_streams'] = [stream]
+    telstate['sdp_archived_streams'] = [stream] + list(archived_streams or [])
     # observation-level attributes
     cb_view = telstate.view(cbid)
     op = {'observer': 'verif', 'description': 'synthetic', 'experiment_id': 'x'}
